@@ -210,6 +210,58 @@ static std::string listed(SDAI_Application_instance *inst, const char *owner, co
 #include "c02_acc.inc"
 #endif
 
+// ---------------------------------------------------------------- registry API as an operation sequence
+// script file: whitespace separated ops
+//   RE NE AE  ResetEntities / NextEntity / NextEntity until null        (RT NT AT types, RS NS AS schemas)
+//   CE GetEntityCnt   CF GetFullEntCnt   FE:<n> FindEntity   FT:<n> FindType   FS:<n> FindSchema   OC:<n> ObjCreate
+// A reference walk of each table is printed first (REF lines: the tables' iteration order); one `R …` line per op.
+static int runScript(const char *path) {
+    Registry reg(SchemaInit);
+    FILE *f = fopen(path, "r");
+    if (!f) { std::cout << "noscript\n"; return 2; }
+    std::vector<std::string> ops;
+    char buf[512];
+    while (fscanf(f, "%500s", buf) == 1) ops.push_back(buf);
+    fclose(f);
+    {
+        std::cout << "REF E";
+        reg.ResetEntities(); const EntityDescriptor *e; int n = 0;
+        while ((e = reg.NextEntity()) && n++ < 100000) std::cout << " " << lower(e->Name());
+        std::cout << "\nREF T";
+        reg.ResetTypes(); const TypeDescriptor *t; n = 0;
+        while ((t = reg.NextType()) && n++ < 100000) std::cout << " " << lower(t->Name());
+        std::cout << "\nREF S";
+        reg.ResetSchemas(); const Schema *sc; n = 0;
+        while ((sc = reg.NextSchema()) && n++ < 100000) std::cout << " " << lower(sc->Name());
+        std::cout << "\n";
+    }
+    for (size_t i = 0; i < ops.size(); i++) {
+        const std::string &o = ops[i];
+        std::string arg = o.size() > 3 && o[2] == ':' ? o.substr(3) : "";
+        std::string op = o.substr(0, 2);
+        std::cout << "R ";
+        if (op == "RE") { reg.ResetEntities(); std::cout << "unit"; }
+        else if (op == "RT") { reg.ResetTypes(); std::cout << "unit"; }
+        else if (op == "RS") { reg.ResetSchemas(); std::cout << "unit"; }
+        else if (op == "NE") { const EntityDescriptor *e = reg.NextEntity(); if (e) std::cout << "name " << lower(e->Name()); else std::cout << "null"; }
+        else if (op == "NT") { const TypeDescriptor *e = reg.NextType(); if (e) std::cout << "name " << lower(e->Name()); else std::cout << "null"; }
+        else if (op == "NS") { const Schema *e = reg.NextSchema(); if (e) std::cout << "name " << lower(e->Name()); else std::cout << "null"; }
+        else if (op == "AE") { std::cout << "names"; const EntityDescriptor *e; int n = 0; while ((e = reg.NextEntity()) && n++ < 100000) std::cout << " " << lower(e->Name()); }
+        else if (op == "AT") { std::cout << "names"; const TypeDescriptor *e; int n = 0; while ((e = reg.NextType()) && n++ < 100000) std::cout << " " << lower(e->Name()); }
+        else if (op == "AS") { std::cout << "names"; const Schema *e; int n = 0; while ((e = reg.NextSchema()) && n++ < 100000) std::cout << " " << lower(e->Name()); }
+        else if (op == "CE") std::cout << "num " << reg.GetEntityCnt();
+        else if (op == "CF") std::cout << "num " << reg.GetFullEntCnt();
+        else if (op == "FE") std::cout << "found " << (reg.FindEntity(arg.c_str()) ? 1 : 0);
+        else if (op == "FT") std::cout << "found " << (reg.FindType(arg.c_str()) ? 1 : 0);
+        else if (op == "FS") std::cout << "found " << (reg.FindSchema(arg.c_str()) ? 1 : 0);
+        else if (op == "OC") { SDAI_Application_instance *x = reg.ObjCreate(arg.c_str()); std::cout << "found " << ((x && x != S_ENTITY_NULL) ? 1 : 0); }
+        else std::cout << "bad-op";
+        std::cout << "\n";
+    }
+    std::cout << "END" << std::endl;
+    return 0;
+}
+
 static int run() {
     Registry reg(SchemaInit);
     g_reg = &reg;
@@ -245,4 +297,4 @@ static int run() {
 
 } // namespace c02h
 
-int main(int, char **) { return c02h::run(); }
+int main(int argc, char **argv) { return argc > 1 ? c02h::runScript(argv[1]) : c02h::run(); }
